@@ -37,6 +37,7 @@ const (
 	prScatter
 	prPreParsed
 	prBadAccepted
+	prDupMsg
 	nRProbes
 )
 
@@ -45,7 +46,7 @@ var rProbeNames = []string{"overflow_eviction", "timeout_eviction", "complete_ev
 	"eoe_completed_buffered_event", "close_flushed_events", "maintain_flushed_events", "push_after_close",
 	"overflow_eviction_of_incomplete_head", "window_edge_offset_used", "call_at_exact_expiry_instant",
 	"late_arrival_after_eviction", "several_evictions_in_one_call", "two_sequence_numbers_more_than_2^24_apart",
-	"history_dealt_onto_3_to_5_far_apart_sequence_clusters", "message_parsed_before_the_first_call_pushed_later", "record_meant_as_unparsable_was_accepted_run_not_judged"}
+	"history_dealt_onto_3_to_5_far_apart_sequence_clusters", "message_parsed_before_the_first_call_pushed_later", "record_meant_as_unparsable_was_accepted_run_not_judged", "second_message_object_equal_to_the_previous_one"}
 
 // callback records of one call
 type rGroup struct {
@@ -63,6 +64,7 @@ type rCB struct {
 type rStream struct {
 	cur   *[]rCB
 	msgs  []*auparse.AuditMessage // by op index (PushMessage only)
+	byPtr map[*auparse.AuditMessage]int
 	bogus int
 }
 
@@ -83,10 +85,16 @@ func (s *rStream) ReassemblyComplete(msgs []*auparse.AuditMessage) {
 	for _, m := range msgs {
 		id := -1
 		if m != nil {
-			id = parseID(m.RawData)
-		}
-		if id >= 0 && id < len(s.msgs) && s.msgs[id] != nil && s.msgs[id] != m {
-			g.ptrOK = false
+			// a message object handed to PushMessage is known by its address (two
+			// objects may be equal in every field); what Push built is known by its text
+			if k, ok := s.byPtr[m]; ok {
+				id = k
+			} else {
+				id = parseID(m.RawData)
+				if id >= 0 && id < len(s.msgs) && s.msgs[id] != nil {
+					g.ptrOK = false
+				}
+			}
 		}
 		g.ids = append(g.ids, id)
 		if m != nil {
@@ -140,7 +148,7 @@ func ExecRPlan(p *RPlan, trace bool) *core.Result {
 	}
 	start := time.Now()
 	var cbs []rCB
-	st := &rStream{cur: &cbs, msgs: make([]*auparse.AuditMessage, len(p.Ops))}
+	st := &rStream{cur: &cbs, msgs: make([]*auparse.AuditMessage, len(p.Ops)), byPtr: map[*auparse.AuditMessage]int{}}
 	tr := func(f string, a ...any) {
 		if trace {
 			res.Trace = append(res.Trace, fmt.Sprintf(f, a...))
@@ -152,8 +160,11 @@ func ExecRPlan(p *RPlan, trace bool) *core.Result {
 		h *= 1099511628211
 	}
 
-	if r0, err := libaudit.NewReassembler(p.Max, time.Duration(p.Timeout), nil); err == nil || r0 != nil {
-		res.Add("C19", "nil-stream-accepted", "new", "NewReassembler accepted a nil Stream")
+	for _, mx := range []int{p.Max, -1, -2 - p.Max, 1 << 20} {
+		if r0, err := libaudit.NewReassembler(mx, time.Duration(p.Timeout), nil); err == nil || r0 != nil {
+			res.Add("C19", "nil-stream-accepted", "new", fmt.Sprintf("NewReassembler(%d, %s, nil) accepted a nil Stream", mx, time.Duration(p.Timeout)))
+			break
+		}
 	}
 	rawBuf := make([]byte, 128)
 	ra, err := libaudit.NewReassembler(p.Max, time.Duration(p.Timeout), st)
@@ -236,6 +247,7 @@ func ExecRPlan(p *RPlan, trace bool) *core.Result {
 		}
 	}
 	outOfModel := false
+	var lastMsg *auparse.AuditMessage
 	for i, op := range p.Ops {
 		now := int64(time.Since(start))
 		cbs = cbs[:0]
@@ -254,7 +266,14 @@ func ExecRPlan(p *RPlan, trace bool) *core.Result {
 				if pre[i] != nil {
 					m = pre[i]
 				}
+				if op.Dup && lastMsg != nil && pre[i] == nil && lastMsg.Sequence == seqOf(op.Off) && uint16(lastMsg.RecordType) == op.Typ {
+					c := *lastMsg // equal in every field, another object
+					m = &c
+					res.Probes[prDupMsg]++
+				}
+				lastMsg = m
 				st.msgs[i] = m
+				st.byPtr[m] = i
 				ra.PushMessage(m)
 				isPush = true
 			case opPushRaw:
@@ -276,8 +295,15 @@ func ExecRPlan(p *RPlan, trace bool) *core.Result {
 				bad := []string{"", "audit(", "audit(1.2:x): id=1", "garbage", "audit(1.000:99999999999): id=2", "audit(1:2) id=3",
 					fmt.Sprintf("audit(1x5.000:%d): id=%d", sq, i), fmt.Sprintf("audit(1500000000.0y0:%d): id=%d", sq, i),
 					fmt.Sprintf("audit(1500000000.000:%d: id=%d", sq, i), fmt.Sprintf("audit(1500000000.000:%dz): id=%d", sq, i),
-					fmt.Sprintf("node=host(1) audit(1500000000.000:%d): id=%d", sq, i)}[int(op.Typ)%nBadRaw]
+					fmt.Sprintf("node=host(1) audit(1500000000.000:%d): id=%d", sq, i),
+					fmt.Sprintf("audit(1500000000.000:%d): id=%d", 1<<32+uint64(sq), i), fmt.Sprintf("audit(1500000000.000:-%d): id=%d", uint64(sq)+1, i),
+					fmt.Sprintf("audit(1500000000.000:%d): id=%d", 5<<32+uint64(sq), i)}[int(op.Typ)%nBadRaw]
 				callErr = ra.Push(auparse.AuditMessageType(tSYSCALL), []byte(bad))
+				if v := int(op.Typ) % nBadRaw; callErr == nil && (v == 4 || v >= 11) {
+					// a well-formed header whose sequence number is not a 32-bit number: whatever
+					// sequence the record is filed under, it is not the one it carries
+					viol("C01", "sequence-changed", "push", "Push(%q) returned nil: the record's sequence number does not fit 32 bits", bad)
+				}
 				if callErr == nil {
 					// Which texts are parsable is not this engine's business (the
 					// properties judged here are about what was pushed): a record
